@@ -176,10 +176,18 @@ Definition clampF (mn mx x : float) : float :=
   let x1 := if fgt x mx then mx else x in
   if PrimFloat.ltb x1 mn then mn else x1.
 
-(** updateDoubleValue *)
+(** nextValue works on [proto.Clone(v.v)]; protobuf-go's merge copies a proto3
+    scalar only when it is [!= 0], so a NEGATIVE ZERO in a scalar double field
+    (value, minimum, maximum, delta_min, delta_max) comes out of the clone as +0
+    (repeated fields -- the options -- are copied as they are) *)
+Definition nz (x : float) : float := if PrimFloat.eqb x 0%float then 0%float else x.
+
+(** updateDoubleValue (on the clone) *)
 Definition update_double (v : float) (d : ddist) (t : tape) : rres (float * ddist) :=
+  let v := nz v in
   match d with
-  | DRange mn mx dmn dmx =>
+  | DRange mn0 mx0 dmn0 dmx0 =>
+      let mn := nz mn0 in let mx := nz mx0 in let dmn := nz dmn0 in let dmx := nz dmx0 in
       if fgt mn mx then RErr
       else if PrimFloat.ltb v mn || fgt v mx then RErr
       else
@@ -190,7 +198,7 @@ Definition update_double (v : float) (d : ddist) (t : tape) : rres (float * ddis
           let right := if delta then dmx else mx in
           let base := if delta then v else 0%float in
           rbind (float64 t) (fun f t' =>
-            RV (clampF mn mx (base + (f * (right - left) + left))%float, d) t')
+            RV (clampF mn mx (base + (f * (right - left) + left))%float, DRange mn mx dmn dmx) t')
   | DList opts rnd =>
       rbind (pick_list opts rnd t) (fun xo t' => RV (fst xo, DList (snd xo) rnd) t')
   | DNone => RV (v, d) t
